@@ -784,8 +784,10 @@ func gen(r *hlib.Rand, id int) Spec {
 		}
 		return a
 	}
+	// another account whose storage holds, at the very same slot, a word the configured contract does NOT hold
+	foreignWord := wordWithZeros(r, r.Intn(4))
 	other := AcctSpec{Addr: hx(r.Bytes(20)), Nonce: "7", Balance: "12345", CodeHash: hx(r.Bytes(32)),
-		Storage: []SlotSpec{{Key: hx(slot), Raw: hx(rlpBytes(trimZeros(word)))}}, FillSeed: r.U64(), FillN: r.Intn(5)}
+		Storage: []SlotSpec{{Key: hx(slot), Raw: hx(rlpBytes(trimZeros(foreignWord)))}}, FillSeed: r.U64(), FillN: r.Intn(5)}
 	nFill := 0
 	switch r.Intn(6) {
 	case 0:
@@ -1106,6 +1108,7 @@ func gen(r *hlib.Rand, id int) Spec {
 			pj.StorageHash = "0x" + hx(oa.root.Bytes())
 			pj.AccountProof = hexList(prove(bw0.state, crypto.Keccak256(hlib.UnHex(other.Addr))))
 			pj.StorageProof[0].Proof = hexList(prove(oa.storage, crypto.Keccak256(slot)))
+			sp.Commitment = hx(foreignWord) // true of the other contract, false of the configured one
 			sp.Family += "+other-contract"
 			sp.Honest = false
 		case 9: // configured address claimed, but the account proof / fields of the other account
@@ -1114,6 +1117,9 @@ func gen(r *hlib.Rand, id int) Spec {
 			pj.StorageHash = "0x" + hx(oa.root.Bytes())
 			pj.AccountProof = hexList(prove(bw0.state, crypto.Keccak256(hlib.UnHex(other.Addr))))
 			pj.StorageProof[0].Proof = hexList(prove(oa.storage, crypto.Keccak256(slot)))
+			if r.Bool() {
+				sp.Commitment = hx(foreignWord)
+			}
 			sp.Family += "+other-account-proof"
 			sp.Honest = false
 		case 10: // address spelling that decodes differently
@@ -1155,6 +1161,9 @@ func gen(r *hlib.Rand, id int) Spec {
 			b1 := bw1.accts[strings.ToLower(hx(contract))]
 			pj.StorageHash = "0x" + hx(b1.root.Bytes())
 			pj.StorageProof[0].Proof = hexList(prove(b1.storage, crypto.Keccak256(slot)))
+			if r.Bool() {
+				sp.Commitment = hx(otherWord) // what world 1 holds there; world 0 (stored at the height) does not
+			}
 			sp.Family += "+foreign-storage-root"
 			sp.Honest = false
 		case 15: // complete honest proof from world 1 (other root)
@@ -1162,6 +1171,9 @@ func gen(r *hlib.Rand, id int) Spec {
 			pj.StorageHash = "0x" + hx(b1.root.Bytes())
 			pj.AccountProof = hexList(prove(bw1.state, crypto.Keccak256(contract)))
 			pj.StorageProof[0].Proof = hexList(prove(b1.storage, crypto.Keccak256(slot)))
+			if r.Bool() {
+				sp.Commitment = hx(otherWord)
+			}
 			sp.Family += "+proof-from-other-world"
 			sp.Honest = false
 		case 16: // no storage proof
